@@ -230,6 +230,9 @@ func (v *PacketDslFormattor) VisitFieldDefinition(ctx interface{}) interface{} {
 		if c.GetFname() != nil {
 			field += " " + c.GetFname().GetText()
 		}
+		if c.STRING_LITERAL() != nil {
+			field += " " + c.STRING_LITERAL().GetText()
+		}
 		b.WriteString(field + ",")
 	case *gen.InerObjectFieldContext:
 		b.WriteString(v.VisitInerObjectField(c).(string))
